@@ -84,8 +84,16 @@ class CallGraph:
         return [s for s in self.out.get(caller, ()) if s["kind"] in kinds]
 
     def site_at(self, module: str, line: int, col: int) -> dict | None:
-        for s in self.sites:
-            if s["module"] == module and s["kind"] == "call" and s["span"][0] == line and abs(s["span"][1] - col) <= 1:
+        idx = getattr(self, "_site_idx", None)
+        if idx is None:
+            idx = {}
+            for s in self.sites:
+                if s["kind"] == "call":
+                    idx.setdefault((s["module"], s["span"][0], s["span"][1]), s)
+            self._site_idx = idx
+        for dc in (0, 1, -1):
+            s = idx.get((module, line, col + dc))
+            if s is not None:
                 return s
         return None
 
